@@ -28,7 +28,7 @@ func c02(c *Ctx) {
 	minLenRule(c, []minLenRow{
 		{fn: "rtp.(*Header).Unmarshal", want: []int{12}, minOnly: true, why: "RFC 3550 fixed header"},
 		{fn: "rtp.(*Packet).Unmarshal", want: []int{12}, minOnly: true, why: "RFC 3550 fixed header, empty payload allowed"}})
-	r.Floor("decoded fields checked by RESET.R1", n, 20)
+	r.Floor("decoded fields checked by RESET.R1", n, 14)
 	c.wrapScope = map[string]bool{"rtp.(*Header).Unmarshal": true, "rtp.(*Packet).Unmarshal": true}
 	boundsFor(c, "C02", []*ssa.Function{hu, pu, ge, gi})
 }
